@@ -71,14 +71,17 @@ class Dumper(yaml.SafeDumper):
     def ignore_aliases(self, data: Any) -> bool:
         """Whether to write data out in full each time it occurs.
 
-        This is called by PyYAML. Like strings and numbers, dates and
-        paths are immutable scalar values, so they are never written
-        as an anchor and an alias if the same object occurs twice.
+        This is called by PyYAML. Like strings and numbers, dates,
+        paths and objects of string-like classes are written as scalar
+        values, so they are never written as an anchor and an alias if
+        the same object occurs twice.
 
         Args:
             data: The object about to be represented.
         """
         if isinstance(data, (datetime.date, PurePath)):
+            return True
+        if is_string_like(type(data)):
             return True
         return bool(yaml.SafeDumper.ignore_aliases(self, data))
 
